@@ -42,6 +42,15 @@ def cases(tier, seed):
             segs = [2, 3, 2, 1]
             for w in _desc(es, lambda i: segs[i]):
                 yield dict(env=env, f=f, pts=pts, wires=w, src=es[0])
+    if tier == 'thorough':
+        for ground in (False, True):
+            P, f, lam = geom.lattice(seed, ground=ground, n=7)
+            pts = [list(map(float, p)) for p in P]
+            for es in geom.edge_sets_new(7, 3):
+                if not any(len(set(a) & set(b)) for a, b in itertools.combinations(es, 2)) and len(es) > 1:
+                    continue
+                for w in _desc(es, lambda i: [2, 3, 2][i]):
+                    yield dict(env='ideal' if ground else 'free', f=f, pts=pts, wires=w, src=es[0])
     # stars on the 7-point lattice, hub = point 4 (free) / point 2 (ground, elevated)
     for ground in (False, True):
         P, f, lam = geom.lattice(seed, ground=ground, n=7)
